@@ -13,7 +13,7 @@
 import ast
 import re
 
-from sa.interp import Interp, Scenario, Sym, Const, Bytes, Frame, State, render
+from sa.interp import alpha, Interp, Scenario, Sym, Const, Bytes, Frame, State, render
 from sa.loader import AnalysisError, dotted, FunctionInfo
 from sa import regexast
 
@@ -107,7 +107,15 @@ def writer(rep, prog, A):
                   where=f.where, expected="b64encode(int_to_bytes(crc24(bytes(self)), 3))", found=kw.get('crc'))
         pk = kw.get('packet', '')
         P = "base64.b64encode(%s).decode('latin-1')" % B
-        m = re.match(r"^'\\n'\.join\(\(SLICE\((.*);i;\(i \+ (\d+)\)\) for i in range\(0, len\((.*)\), (\d+)\)\)\)$", pk)
+        m0 = re.match(r"^'\\n'\.join\(EACH\(\$1 in range\(0, len\((.*)\), (\d+)\);SLICE\((.*);\$1;\(\$1 \+ (\d+)\)\)\)\)$", alpha(pk))
+
+        class _M(object):        # (payload in slice, width, payload in len, step)
+            def __init__(self, m):
+                self.m = m
+
+            def group(self, i):
+                return self.m.group({1: 3, 2: 4, 3: 1, 4: 2}[i])
+        m = _M(m0) if m0 else None
         rep.check(m is not None and m.group(1) == P and m.group(3) == P, 'C10.2', 'Armorable.__str__', 'payload = %s' % pk[:90],
                   'the payload is the base64 of the same binary export the CRC is computed over', where=f.where, found=pk)
         if m:
